@@ -7,7 +7,7 @@ import FastorModel.Model.Config
 namespace Fastor.Driver
 open Fastor Fastor.Expr Fastor.Layout Fastor.MapAlias
 
-def parseDims (s : String) : List Nat := (s.splitOn "x").filterMap String.toNat?
+private def parseDims (s : String) : List Nat := (s.splitOn "x").filterMap String.toNat?
 
 /-- force a memory into an array (a function-valued `def` would be re-run on every application) -/
 def memArr (n : Nat) (m : Nat → Fp) : Array Fp := ((List.range n).map m).toArray
